@@ -127,6 +127,64 @@ Section Tail.
       - rewrite (at_head_step _ _ _ H), (head_stop _ _ RO S).
         rewrite run_tail by reflexivity. reflexivity.
     Qed.
+    (* ---- what the user sees (C04, C09): the result of Parse on the whole argument vector is the
+       result of Parse on the part before the stop point, with everything from the stop point on
+       appended verbatim to remaining: same warnings, same error, same option store and selected
+       command ---- *)
+    Definition extend (extra : list str) (r : presult) (st' : pst) : presult :=
+      match pr_out r with
+      | Ok (_, rem) => mkRes (pr_warn r) (Ok (st', rem ++ extra))
+      | Err e => r
+      end.
+
+    Lemma policy_levels_text ls n t u extra :
+      policy_levels (ls ++ [mkLevel n (t ++ extra) u]) =
+        (let '(w, e, r) := policy_levels (ls ++ [mkLevel n t u]) in
+         match e with None => (w, e, r ++ extra) | Some _ => (w, e, r) end).
+    Proof.
+      induction ls as [|l ls IH]; simpl.
+      - destruct (unknown_policy (ni_umode (n_info n)) u) as [w e]. destruct e; [reflexivity|].
+        simpl. rewrite !app_nil_r. reflexivity.
+      - destruct (unknown_policy (ni_umode (n_info (lv_node l))) (lv_unk l)) as [w e]. destruct e; [reflexivity|].
+        rewrite IH. destruct (policy_levels (ls ++ [mkLevel n t u])) as [[w' e'] r']. destruct e'; [reflexivity|].
+        rewrite app_assoc. reflexivity.
+    Qed.
+
+    Lemma parse_extend root st0 args1 args2 sh extra p' :
+      walk root st0 args1 = Ok sh ->
+      walk root st0 args2 = Ok (mkPst (cur sh) (up sh) (text sh ++ extra) (unk sh) (store sh) p') ->
+      parse pf md lower ro_on specs root st0 args2 =
+        extend extra (parse pf md lower ro_on specs root st0 args1)
+               (mkPst (cur sh) (up sh) (text sh ++ extra) (unk sh) (store sh) p').
+    Proof.
+      intros W1 W2. unfold Parse.parse. rewrite W1, W2. cbn [cur up store text unk].
+      destruct (match up sh with [] => _ | _ :: _ => None end) as [e|]; [reflexivity|].
+      unfold levels_of. cbn [cur up text unk rev]. rewrite policy_levels_text.
+      destruct (policy_levels (rev (up sh) ++ [mkLevel (cur sh) (text sh) (unk sh)])) as [[w e] r].
+      destruct e; reflexivity.
+    Qed.
+
+    Theorem terminator_parse root st0 pre tail st sh :
+      run (init root st0) pre = Ok st -> at_head st DD sh ->
+      parse pf md lower ro_on specs root st0 (pre ++ DD :: tail) =
+        extend tail (parse pf md lower ro_on specs root st0 pre) (add_text (set_ph sh PTail) tail).
+    Proof.
+      intros R H. destruct (terminator_walk root st0 pre tail st sh R H) as [W1 W2].
+      exact (parse_extend root st0 pre (pre ++ DD :: tail) sh tail PTail W1 W2).
+    Qed.
+
+    Theorem require_order_parse root st0 pre s tail st sh :
+      run (init root st0) pre = Ok st -> at_head st s sh ->
+      (ro_on && ni_reqorder (n_info (cur sh)))%bool = true -> stops_order sh s ->
+      parse pf md lower ro_on specs root st0 (pre ++ s :: tail) =
+        extend (s :: tail) (parse pf md lower ro_on specs root st0 pre) (add_text (set_ph (add_text sh [s]) PTail) tail).
+    Proof.
+      intros R H RO S. destruct (require_order_stop root st0 pre s tail st sh R H RO S) as [W1 W2].
+      assert (E : add_text (set_ph (add_text sh [s]) PTail) tail =
+                  mkPst (cur sh) (up sh) (text sh ++ s :: tail) (unk sh) (store sh) PTail).
+      { unfold add_text, set_ph. simpl. rewrite <- app_assoc. reflexivity. }
+      rewrite E in *. exact (parse_extend root st0 pre (pre ++ s :: tail) sh (s :: tail) PTail W1 W2).
+    Qed.
   End RO.
 
   (* C09, last sentence: up to the stop point the parser behaves as without require-order.
